@@ -116,7 +116,7 @@ def setup(params):
 
 
 class ScriptedIn:
-    """in_stream: read(1) returns the next scripted character; the reads whose index is in `faults` raise OSError first"""
+    """in_stream: read(n) returns the next (up to n) scripted characters; the reads whose index is in `faults` raise OSError first"""
     encoding = "utf8"
 
     def __init__(self, chars, faults):
@@ -134,6 +134,10 @@ class ScriptedIn:
             return ""
         c = self.chars[self.pos]
         self.pos += 1
+        # like a stream: a read of n characters takes up to n of what is waiting
+        while n is not None and n > 1 and self.pos < len(self.chars) and len(c) < n:
+            c = c + self.chars[self.pos]
+            self.pos += 1
         return c
 
 
